@@ -872,10 +872,10 @@ def giarr(rng, shape, lo=-500, hi=500, dtype=int):
     return np.array([rng.randint(lo, hi) for _ in range(n)], dtype=dtype).reshape(shape)
 
 
-def valid_nblok(rng, n):
+def valid_nblok(rng, n, atleast=1):
     """a block count whose blocks all have non-negative width (what a code writing the file would choose)"""
     for _ in range(20):
-        nb = rng.randint(1, max(1, n))
+        nb = rng.randint(min(atleast, max(1, n)), max(1, n))
         x = (n - 1) // nb + 1
         if (nb - 1) * x <= n:
             return nb
@@ -899,6 +899,8 @@ def gen_geodst(rng, asc, idx):
         ni, nj, nk = (n + d for n, d in zip((nci, ncj, nck), rng.sample([4, 5, 6], 3)))
     for k in geodst.FILE_SPEC_1D_KEYS:
         md[k] = gi(rng, asc)
+    if nrass == 1:
+        ni, nj, nk = max(ni, nci + 1), max(nj, ncj + rng.randint(0, 1)), max(nk, nck + rng.randint(1, 3))
     md["IGOM"], md["NRASS"] = igom, nrass
     md["NCINTI"], md["NCINTJ"], md["NCINTK"] = nci, ncj, nck
     md["NINTI"], md["NINTJ"], md["NINTK"] = ni, nj, nk
@@ -974,7 +976,7 @@ def gen_dif3d(rng, asc, idx):
 def gen_nhflux(rng, asc, idx, variant=False):
     from armi.nuclearDataIO.cccc import nhflux
 
-    d = nhflux.NHFLUX(variant=variant)
+    d = nhflux.NHFLUX(variant=variant, numDataSetsToRead=[1, 1, 2, 1, 3, 1][idx % 6] if idx < 6 else rng.choice([1, 1, 2]))
     md = d.metadata
     md["label"] = rand_text(rng, 28)
     nA, nSurf, ng, nz = rng.randint(1, 4), rng.choice([6, 4, 3]), rng.randint(1, 3), rng.randint(1, 3)
@@ -1050,8 +1052,8 @@ def gen_pwdint(rng, asc, idx):
     md["version"], md["mult"] = gi(rng, asc), gi(rng, asc)
     for k in pwdint.FILE_SPEC_1D_KEYS:
         md[k] = gi(rng, asc) if k[0] in "IJKLMN" else gf(rng)
-    ni, nj, nk = rng.randint(1, 4), rng.randint(1, 7), rng.randint(1, 3)
-    md["NINTI"], md["NINTJ"], md["NINTK"], md["NBLOK"] = ni, nj, nk, valid_nblok(rng, nj)
+    ni, nj, nk = rng.randint(1, 4), rng.randint(1 + 2 * (idx % 2), 7), rng.randint(1, 3)
+    md["NINTI"], md["NINTJ"], md["NINTK"], md["NBLOK"] = ni, nj, nk, valid_nblok(rng, nj, 1 + idx % 2)
     d.powerDensity = garr(rng, (ni, nj, nk)).astype(np.float32)
     return d
 
@@ -1079,8 +1081,8 @@ def gen_rzflux(rng, asc, idx):
     md["label"] = rand_text(rng, 28)
     for k in rzflux.FILE_SPEC_1D_KEYS:
         md[k] = gi(rng, asc) if k[0] in "IJKLMN" else gf(rng)
-    nz, ng = rng.randint(1, 9), rng.randint(1, 4)
-    md["NZONE"], md["NGROUP"], md["NBLOK"] = nz, ng, valid_nblok(rng, nz)
+    nz, ng = rng.randint(1 + 2 * (idx % 2), 9), rng.randint(1, 4)
+    md["NZONE"], md["NGROUP"], md["NBLOK"] = nz, ng, valid_nblok(rng, nz, 1 + idx % 2)
     d.groupFluxes = garr(rng, (ng, nz)).astype(np.float32)
     return d
 
@@ -1202,7 +1204,10 @@ def gen_isotxs(rng, asc, idx, gam=False):
     hetero = idx % 3 == 0  # per-nuclide counts made pairwise different and the file-wide values their maxima
     from armi.nucDirectory import nuclideBases
 
-    flagpool = [100, 101, 200, 300, 0, 102, 103, 1]
+    flagpool = [100, 101, 200, 300, 0, 102, 103, 1, 201, 202, 203, 301, 302, 2]
+    if idx % 4 == 1:
+        # mostly higher-order blocks (P2+ elastic / inelastic / n2n / total): they live in micros.higherOrderScatter
+        flagpool = [102, 103, 104, 201, 202, 203, 301, 302, 2, 3, 100]
     for nm in names:
         base = nuclideBases.byName[nm]
         label = base.label + "AA"
@@ -1318,8 +1323,8 @@ def gen_pmatrx(rng, asc, idx, max_order=None):
         lib._gammaDoseConversionFactors = garr(rng, ngg)
     # production-matrix orders: file maximum M, per-nuclide orders 0..M, one nuclide at M, one strictly below
     nucs = lib.nuclides
-    # (a third order is written but cannot be read back: finding pmatrx-production-matrix-order-3, probed separately)
-    M = max_order if max_order else ([2, 2, 1, 2][idx % 4] if idx < 8 else rng.randint(1, 2))
+    # (three and more orders - nOrderProductionMatrix - are readable since fix 44b2ff5)
+    M = max_order if max_order else ([2, 3, 1, 4][idx % 4] if idx < 8 else rng.randint(1, 4))
     orders = [rng.randint(0, M) for _ in nucs]
     if len(nucs) >= 2:
         orders[0], orders[1] = M, rng.randint(0, M - 1)
@@ -1496,6 +1501,16 @@ def _stream_fmt(name, modname, clsname, gen, fixture=None, **kw):
         (cls().writeAscii if asc else cls().writeBinary)(data, path)
 
     def read(path, asc, like=None):
+        nsets = 1
+        if like is not None and modname == "nhflux":
+            nsets = like.metadata["numDataSetsToRead"] or 1
+        if nsets > 1:
+            # several whole-core data sets in one file: the container says how many to step through (there is no
+            # public read entry point that takes it: the stream's own _readWrite on a prepared container)
+            from armi.nuclearDataIO.cccc import nhflux
+
+            box = nhflux.NHFLUX(variant=bool(like.metadata["variantFlag"]), numDataSetsToRead=nsets)
+            return cls()._readWrite(box, path, "r" if asc else "rb")
         return (cls().readAscii if asc else cls().readBinary)(path)
 
     return Fmt(name, gen, write, read, fixture, **kw)
@@ -1692,6 +1707,33 @@ def roundtrip_case(ctx, fmt, data, asc, workdir, tag, case, jobs, origin="genera
     if b2 is not None and b2 != b1:
         ctx.fail(f"ascii-{fmt.name.lower()}-{origin}-{cause}" if cause else f"{key0}-rewrite-identical",
                  "writing what was read reproduces the file byte for byte", case, observed=_first_byte_diff(b2, b1))
+    # second generation: the cycle started from a container the READER built (its own array types, sparse forms,
+    # defaults): write (done: p2) -> read -> equal data -> write -> identical bytes
+    if b2 is not None and not cause:
+        p3 = os.path.join(workdir, tag + ".3")
+        B2 = canon(data2)
+        with common.quiet():
+            try:
+                with time_limit(ctx.pick(120, 300)):
+                    data3 = fmt.read(p2, asc, like=data2)
+                C = canon(data3)
+                fmt.write(data3, p3, asc)
+                b3 = open(p3, "rb").read()
+                obs = None
+            except Exception as e:  # noqa
+                obs = repr(e)[:300]
+        ctx.count("second-generation cycles (read container -> write -> read -> write)")
+        if obs is not None:
+            ctx.fail(f"{key0}-second-generation-raises", "a container built by the reader goes through write -> read -> "
+                     "write", case, observed=obs)
+        else:
+            df = first_diff(B2, C)
+            if df:
+                ctx.fail(f"{key0}-second-generation-data", "a container built by the reader reads back equal after being "
+                         "written", case, observed={"where": df[0], "read": str(df[2])[:200]}, expected=str(df[1])[:200])
+            if b3 != b2:
+                ctx.fail(f"{key0}-second-generation-rewrite", "write -> read -> write starting from a read container "
+                         "reproduces the bytes", case, observed=_first_byte_diff(b3, b2))
     jobs.append((fmt, asc, case, trw, b1))
     return data2
 
@@ -1989,6 +2031,46 @@ def run_announced_records(ctx, workdir):
         ctx.fail("pmatrx-activation-record", "PMATRX nuclide with numberNeutronXS > 0 is written and read back",
                  {"nuclide": nuc.pmatrxMetadata["nuclideId"] if nuc.pmatrxMetadata["nuclideId"] else lib.nuclideLabels[0]},
                  observed=obs)
+    # NHFLUX / NAFLUX with two DIFFERENT whole-core data sets in one file (as SASSYS/DIF3D-K writes them): reading one
+    # set returns the first, stepping through two returns the second
+    import copy
+
+    from armi.nuclearDataIO.cccc import nhflux
+
+    for clsname, variant in (("NhfluxStream", False), ("NafluxStream", False), ("NhfluxStreamVariant", True)):
+        cls_ = getattr(nhflux, clsname)
+        dA = gen_nhflux(rng, False, 0, variant=variant)
+        dB = copy.deepcopy(dA)
+        for a in ("fluxMomentsAll", "partialCurrentsHexAll", "partialCurrentsHex_extAll", "partialCurrentsZAll"):
+            v = getattr(dB, a)
+            if isinstance(v, np.ndarray) and v.size:
+                setattr(dB, a, garr(rng, v.shape))
+        pa, pb, pab = (os.path.join(workdir, f"nh2-{clsname}-{x}") for x in "a b ab".split())
+        obs = None
+        with common.quiet():
+            try:
+                cls_.writeBinary(dA, pa)
+                cls_.writeBinary(dB, pb)
+                ba, bb = open(pa, "rb").read(), open(pb, "rb").read()
+                pos = 0
+                for _ in range(3):  # file id, 1D, 2D records
+                    pos += 8 + struct.unpack("<i", ba[pos:pos + 4])[0]
+                if ba[:pos] != bb[:pos]:
+                    obs = "the two data sets do not share their header records"
+                else:
+                    open(pab, "wb").write(ba + bb[pos:])
+                    one = cls_.readBinary(pab)
+                    two = cls_._readWrite(nhflux.NHFLUX(variant=variant, numDataSetsToRead=2), pab, "rb")
+                    want1, want2 = canon(dA), canon(dB)
+                    want2["metadata"]["_data"]["numDataSetsToRead"] = 2
+                    df = first_diff(want1, canon(one)) or first_diff(want2, canon(two))
+                    obs = None if df is None else {"where": df[0], "read": str(df[2])[:120], "expected": str(df[1])[:120]}
+            except Exception as e:  # noqa
+                obs = repr(e)[:300]
+        ctx.count("announced-record probes")
+        if obs is not None:
+            ctx.fail("nhflux-several-data-sets", "a file holding two whole-core data sets gives the first when one set is "
+                     "read and the second when two are stepped through", {"stream": clsname}, observed=obs)
     # PMATRX nuclides with three or more production-matrix orders (heading maxScatteringOrder >= 3)
     for M in (3, 4):
         lib = gen_pmatrx(rng, False, 2, max_order=M)
